@@ -295,6 +295,32 @@ func C06(c *fw.Ctx) {
 		}
 	}
 	encl := []string{"block", "if", "while", "for", "function"}
+	// line structure before the fault: a printed string literal that spans lines (plain, a backslash before
+	// the line end, quotes of comments inside, a carriage return) precedes every fault at the top level and in
+	// a function body; the diagnostic must still name the line of the fault
+	{
+		noise := []string{"a\nb", "a\\\nb", "\\\n", "x\\", "\\\\\n\\", "/*\n", "//\n*/", "a\r\nb", "\n\n\n", "tab\t\\\nq"}
+		for ni, nz := range noise {
+			for _, f := range faults {
+				if f.E == nil || strings.HasPrefix(f.Name, "builtin-misuse:") || strings.Contains(f.Name, "text") {
+					continue
+				}
+				for where := 0; where < 2; where++ {
+					if !c.Mine() {
+						continue
+					}
+					var prog []*model.N
+					if where == 0 {
+						prog = append(c06Prelude(), model.Print(model.Str(nz)), T("begin"), model.ExprS(f.E()), T("never"))
+					} else {
+						prog = append(c06Prelude(), model.Fun("wrapf", nil, model.Print(model.Str(nz)), T("begin"), model.ExprS(f.E()), T("never")), model.ExprS(model.CallN("wrapf")))
+					}
+					judge(c, prog, judgeOpts{SigPrefix: fmt.Sprintf("multi-line-string-before|%s|noise%d", f.Name, ni), NoKind: true, NoOneLine: true, NoPrompt: true, NoTwice: true})
+					c.R.States++
+				}
+			}
+		}
+	}
 	var path []string
 	var rec func()
 	rec = func() {
